@@ -12,6 +12,7 @@ RandomState in the same state agree; different seeds change the initial populati
 from __future__ import annotations
 
 import copy
+import json
 import random as pyrandom
 import subprocess
 import sys
@@ -89,7 +90,7 @@ def main(tier: str) -> int:
             cfg_rs = dict(cfg)
             cfg_rs["seed"] = np.random.RandomState(cfg["seed"])
             cfg_other = dict(cfg)
-            cfg_other["seed"] = cfg["seed"] + 1
+            cfg_other["seed"] = cfg["seed"] + (1 if k % 2 else 2 ** 31)      # also seeds that differ only in a high bit
             try:
                 c = fingerprint(T.record(cn, cfg_rs))
                 d2 = fingerprint(T.record(cn, cfg_other))
@@ -230,6 +231,31 @@ def main(tier: str) -> int:
             chk.fail("fitting an estimator twice with the same random_state gives different models",
                      {"estimator": name, "same_tree": res[0][0] == res[1][0], "same_net": res[0][1] == res[1][1], "same_predictions": res[0][2] == res[1][2]},
                      {"target": name, "clause": "same_seed"})
+    # ---- the same seeded fit in DIFFERENT interpreter processes (different string-hash salts, nothing shared)
+    import os as _os
+    procs = []
+    for hs in ("0", "1", "4242"):
+        env = dict(_os.environ, PYTHONHASHSEED=hs, PYTHONPATH=str(C.REPO / "src") + ":" + str(C.VERIF / "harness"))
+        procs.append((hs, subprocess.Popen([sys.executable, str(C.VERIF / "harness/c04_child.py"), str(C.VERIF / "harness")], env=env, stdout=subprocess.PIPE, stderr=subprocess.PIPE, text=True)))
+    prints = {}
+    for hs, pr in procs:
+        so, se = pr.communicate(timeout=900)
+        line = next((l for l in so.splitlines() if l.startswith("FINGERPRINT ")), None)
+        if line is None:
+            chk.fail("a seeded GP fit in a fresh interpreter raises", {"PYTHONHASHSEED": hs, "error": se[-300:]}, {"target": "GPRegressor", "clause": "raises"})
+        else:
+            prints[hs] = json.loads(line[len("FINGERPRINT "):])
+    chk.count("fresh_processes", len(prints))
+    chk.case(("fresh_processes",))
+    ks = sorted(prints)
+    for other in ks[1:]:
+        for name in prints[ks[0]]:
+            if prints[other][name] != prints[ks[0]][name]:
+                chk.fail("the same seeded fit gives different results in different interpreter processes",
+                         {"estimator": "GeneticProgrammingRegressor", "optimizer": name, "PYTHONHASHSEED": [ks[0], other],
+                          "trees": [prints[ks[0]][name]["tree"], prints[other][name]["tree"]], "same_initial_population": prints[other][name]["pop0"] == prints[ks[0]][name]["pop0"]},
+                         {"target": "GPRegressor", "clause": "same_seed_processes"})
+                break
     # ---- GP with the protected functions that mask part of their argument (logabs, div, sqrtabs, exp): exact zeros in a
     #      feature column, >= 128 samples (large buffers come from the allocator un-initialised), different heap histories
     from thefittest.regressors import GeneticProgrammingRegressor
